@@ -132,7 +132,7 @@ def parseReq (args : List Str) : Option Parsed :=
         let rin : ReqIn := {
           rtype := rt, rname := rname, method := method, found := found,
           params := (ps.toArray.qsort (fun a b => a.1 < b.1)).toList,
-          payload := if pk = [101] then .empty else if pk = [98] then .bad else .ok,
+          payload := if pk.head? = some 101 then .empty else if pk.head? = some 98 then .bad else .ok,
           cid := cid, isHTTP := http = [84],
           rawParams := if params = [45] then none else some params,
           token := if token = [45] then none else some token,
@@ -332,9 +332,30 @@ def judge08 (p : Parsed) (log : List Eff) : String :=
            else go fuel (rest.drop n) none)
     | _ + 1, .listener _ nm :: _ => some ("listener-without-publish:" ++ Str.show nm)
     | fuel + 1, .seen _ :: rest => go fuel rest none
+  -- invalid calls publish nothing: the published events are, in order, among the *valid* event
+  -- calls of the handler (wrong resource type, negative index, reserved or malformed name and an
+  -- empty change are not valid calls)
+  let typ := p.cfg.typ
+  let validCalls : List Str := p.script.filterMap fun a => match a with
+    | .change props => if typ ≠ 2 ∧ !props.isEmpty then some (str "change") else none
+    | .add _ idx => if typ ≠ 1 ∧ idx ≥ 0 then some (str "add") else none
+    | .remove idx => if typ ≠ 1 ∧ idx ≥ 0 then some (str "remove") else none
+    | .create _ => some (str "create")
+    | .delete => some (str "delete")
+    | .custom name _ => if !Req.reserved.contains name ∧ Req.isValidPartB name then some name else none
+    | _ => none
+  let published : List Str := log.filterMap fun e => match e with
+    | .pub s _ => (match evName s with
+        | some nm => if nm = str "reaccess" ∨ nm = str "query" then none else some nm
+        | none => none)
+    | _ => none
+  let rec embeds : List Str → List Str → Bool
+    | [], _ => true
+    | _ :: _, [] => false
+    | x :: xs, y :: ys => if x = y then embeds xs ys else embeds (x :: xs) ys
   match go (log.length + 1) log none with
   | some why => "?viol:" ++ why
-  | none => "?ok"
+  | none => if embeds published validCalls then "?ok" else "?viol:event-published-for-an-invalid-event-call"
 
 def tagOf (p : Parsed) (log : List Eff) : String :=
   let r := p.rin
